@@ -97,7 +97,7 @@ def generate(rng, tier):
         spec, w, _ = gen.gen_world(rng, o)
     else:
         w = build(spec)
-    return {'spec': spec, 'raw_ts': rng.random() < 0.4, 'backend': rng.choice(['simstream', 'simstream', 'simpath', 'bytesio', 'realpath']),
+    return {'spec': spec, 'raw_ts': rng.random() < 0.4, 'backend': rng.choice(['simstream', 'simstream', 'simpath', 'bytesio', 'realpath', 'realfile']),
             'dedup_chunk': rng.choice([1, 2, 3, 100]), 'actions': gen_actions(rng, w),
             'short_seed': rng.getrandbits(32) if rng.random() < 0.2 else None, 'debug_log': rng.random() < 0.05}
 
